@@ -248,6 +248,7 @@ pub struct CaseStats {
     pub liveness_slow: u32,
     pub handoffs_completed: u32,
     pub mode1: u32,
+    pub fallbacks: u32,
     pub noop_by_kind: [u32; NKINDS],
 }
 
@@ -1280,13 +1281,39 @@ impl World {
         if let Some(t) = self.trace.as_mut() {
             t.push(format!("op[{}] {:?}", self.op_index, op));
         }
-        let effective = self.exec_inner(op);
+        let mut effective = self.exec_inner(op);
+        if !effective && !self.strict_nodes && !self.dead {
+            // an inapplicable operation lets the system move on instead of doing nothing:
+            // a pending Ready is processed, else the oldest message is delivered, else time passes
+            effective = self.idle_fallback();
+            if effective {
+                self.stats.fallbacks += 1;
+            }
+        }
         if !effective {
             self.stats.noops += 1;
             self.stats.noop_by_kind[op.kind()] += 1;
         }
         self.mon.after_op(&self.nodes, self.op_index);
         self.op_index += 1;
+    }
+
+    fn idle_fallback(&mut self) -> bool {
+        for ni in 0..NN {
+            if self.nodes[ni].rn.as_ref().map_or(false, |r| r.has_ready()) {
+                return self.ready_step(ni, 0, false, true, false);
+            }
+        }
+        for ni in 0..NN {
+            if self.nodes[ni].up() && !self.nodes[ni].batches.is_empty() {
+                return self.fsync(ni, 0);
+            }
+        }
+        if let Some((m, meta)) = self.net.pop_front() {
+            self.deliver_msg(m, meta);
+            return true;
+        }
+        self.exec_inner(&Op::TickAll { k: 1 })
     }
 
     pub(crate) fn exec_inner(&mut self, op: &Op) -> bool {
